@@ -5,6 +5,7 @@
    scope id (C06_invariant_needs_wf shows that the totalised model violates the invariant otherwise).
    live s tm = number of loop entries (timer heap + ready queue) carrying timer id tm. *)
 From AV Require Import Base Machine ChainSpec ChainGen ChainEq ChainFrame ChainThms ChainWalk ChainMono TimerInv TimerThms TimerOrder.
+From AV Require Import TreeStep ChainReach TimerRun TimerOwn.
 From Coq Require Import Sorted.
 
 (* ---------------- I3: one live timer, never missed, no stray timers ---------------- *)
@@ -198,7 +199,8 @@ Theorem C06_effective_deadline_neginf_iff_cancelled : forall l : list scope_rec,
 Proof. exact eff_deadline_spec_neginf. Qed.
 Print Assumptions C06_effective_deadline_neginf_iff_cancelled.
 
-(* visible l = the chain up to and including the nearest shielded scope; xof d = the deadline as an extended time *)
+(* visible l = the chain up to and including the nearest shielded or exited (F42) scope; xof d = the deadline as an
+   extended time *)
 Theorem C06_effective_deadline_is_min : forall l : list scope_rec,
   eff_cancelled_spec l = false ->
   (forall r, In r (visible l) -> xle (eff_deadline_spec l) (xof (r_deadline r))) /\
@@ -206,7 +208,160 @@ Theorem C06_effective_deadline_is_min : forall l : list scope_rec,
 Proof. exact eff_deadline_spec_min. Qed.
 Print Assumptions C06_effective_deadline_is_min.
 
+(* the machine's walk = the generated one on chains of entered scopes, hence for every task of every reachable state
+   of the generated domain (see C04_reach_walks_see_entered_scopes) *)
 Theorem C06_machine_eff_deadline_is_generated : forall (fuel : nat) (s : st) (x : option sid),
+  Forall (fun r => r_hosted r = true) (chain_of fuel s x) ->
   eff_deadline_from fuel s x XInf = gen_eff_deadline (chain_of fuel s x).
 Proof. exact machine_eff_deadline_gen. Qed.
 Print Assumptions C06_machine_eff_deadline_is_generated.
+
+Theorem C06_reach_eff_deadline_is_generated : forall (s : st) (fuel : nat) (t : tid),
+  reach_ok s ->
+  eff_deadline_from fuel s (k_cur (tasks s t)) XInf = gen_eff_deadline (chain_of fuel s (k_cur (tasks s t))).
+Proof. exact reach_eff_deadline_is_generated. Qed.
+Print Assumptions C06_reach_eff_deadline_is_generated.
+
+(* ---------------- "never missed" with its real hypothesis (audit T4) ---------------- *)
+(* whatever the program and the loop do after the deadline of an active, uncancelled scope has become due: the scope
+   is cancelled, or it was disarmed (left, or its deadline changed), or its timeout callback is still pending *)
+Theorem C06_due_deadline_cancels_unless_disarmed : forall (s : st) (c : sid) (d : Z) (ops : list op),
+  (exists ops0, wf_run init ops0 /\ s = final step init ops0) ->
+  s_active (scopes s c) = true -> s_cancelled (scopes s c) = false ->
+  s_deadline (scopes s c) = Some d -> (d <= now s)%Z ->
+  let s' := final step s ops in wf_run s ops ->
+  s_cancelled (scopes s' c) = true \/ s_active (scopes s' c) = false \/ s_deadline (scopes s' c) <> Some d \/
+  (exists tm, In (HTimeout c tm) (ready s')).
+Proof. exact due_deadline_cancels_unless_disarmed. Qed.
+Print Assumptions C06_due_deadline_cancels_unless_disarmed.
+
+(* one loop cycle: if ops runs every handle that was ready in s and the scope is neither left nor given another
+   deadline meanwhile (at every prefix of ops it is still active with deadline d), the scope is cancelled afterwards *)
+Theorem C06_due_deadline_cancelled_after_cycle : forall (s : st) (c : sid) (d : Z) (ops : list op),
+  (exists ops0, wf_run init ops0 /\ s = final step init ops0) ->
+  s_active (scopes s c) = true -> s_cancelled (scopes s c) = false ->
+  s_deadline (scopes s c) = Some d -> (d <= now s)%Z ->
+  wf_run s ops ->
+  (forall pre post, ops = pre ++ post ->
+     s_active (scopes (final step s pre) c) = true /\ s_deadline (scopes (final step s pre) c) = Some d) ->
+  (forall h, In h (ready s) -> In (ARun h) ops) ->
+  s_cancelled (scopes (final step s ops) c) = true.
+Proof. exact due_deadline_cancelled_after_cycle. Qed.
+Print Assumptions C06_due_deadline_cancelled_after_cycle.
+
+(* the semantic "left alone" hypothesis cannot be replaced by "ops contains no AExit _ c _ / ASetDeadline _ c _": a
+   task group's own scope is left by AGroupExit.  Group scope 1 has deadline 5, the clock is at 5, the callback is
+   ready; the host leaves the group first; the scope is never cancelled. *)
+Theorem C06_cycle_needs_left_alone :
+  let s := final step init [ANewRoot; AGroupNew 1; AGroupEnter 1 1; ASetDeadline 1 1 (Some 5%Z); ATick 5] in
+  let cycle := [AGroupExit 1 1; ARun (HStep 1); ARun (HTimeout 1 1)] in
+  (exists ops0, wf_run init ops0 /\ s = final step init ops0) /\
+  s_active (scopes s 1) = true /\ s_cancelled (scopes s 1) = false /\
+  s_deadline (scopes s 1) = Some 5%Z /\ now s = 5%Z /\ ready s = [HTimeout 1 1] /\ wf_run s cycle /\
+  (forall h, In h (ready s) -> In (ARun h) cycle) /\
+  forallb (fun o => match o with AExit _ 1 _ | ASetDeadline _ 1 _ => false | _ => true end) cycle = true /\
+  s_cancelled (scopes (final step s cycle) 1) = false /\ s_active (scopes (final step s cycle) 1) = false.
+Proof. exact stays_needed. Qed.
+Print Assumptions C06_cycle_needs_left_alone.
+
+(* fired timer callbacks enter the ready queue only through an accepted ATick (every state, every op) *)
+Theorem C06_fired_callbacks_only_by_tick : forall (s : st) (o : op) (h : handle),
+  (forall dt, o <> ATick dt) ->
+  match h with HSleepDone _ _ | HTimeout _ _ => true | _ => false end = true ->
+  In h (ready (fst (step s o))) -> In h (ready s).
+Proof. exact fired_callbacks_only_by_tick. Qed.
+Print Assumptions C06_fired_callbacks_only_by_tick.
+
+(* ---------------- what fail_at / move_on report, with the provisos of the text explicit ---------------- *)
+(* c = the scope created and entered by the op `AFailAt t0 d0 sh` (fail_at, fail_after, move_on_at, move_on_after)
+   after the history `pre`; `mid` is everything that happens until the block is left.
+   no_explicit_cancel c mid : mid contains no ACancel _ c / AExtCancel c            ("not also cancelled explicitly")
+   no_redeadline c s2 mid   : no ASetDeadline _ c _ at a point where c is cancelled ("deadline not reassigned after it
+                              has fired"), evaluated along the run.
+   Then TimeoutError IFF cancelled by its OWN deadline /\ no enclosing cancellation visible at the exit /\ the block
+   ended with AnyIO cancellations only.  The 2nd and 3rd conjunct are real: C06_t1_..., C06_t2_... below. *)
+Theorem C06_timeout_iff_own_deadline : forall (pre : list op) (t0 : tid) (d0 : option Z) (sh : bool) (mid : list op),
+  let s1 := final step init pre in
+  let c := nscope s1 in
+  let s2 := fst (step s1 (AFailAt t0 d0 sh)) in
+  let s := final step s2 mid in
+  wf_run init (pre ++ AFailAt t0 d0 sh :: mid) -> idle s1 t0 = true ->
+  no_explicit_cancel c mid = true -> no_redeadline c s2 mid = true ->
+  forall t, idle s t = true ->
+  (snd (step s (AExit t c true)) = RExc ETimeout <->
+   (s_active (scopes (begin_act s t) c) && opt_eqb (s_host (scopes (begin_act s t) c)) t &&
+    opt_eqb (k_cur (tasks (begin_act s t) t)) c) = true /\
+   s_bydeadline (scopes s c) = true /\ parent_visible s c = false /\
+   ((exists e, k_held (tasks s t) = Some e /\ is_anyio_cancel e = true) \/
+    (exists l m, k_held (tasks s t) = Some (EGroup l) /\ split_exn (EGroup l) = (Some m, None)))).
+Proof. exact timeout_iff_own_deadline. Qed.
+Print Assumptions C06_timeout_iff_own_deadline.
+
+Theorem C06_move_on_caught_iff : forall (pre : list op) (t0 : tid) (d0 : option Z) (sh : bool) (mid : list op),
+  let s1 := final step init pre in
+  let c := nscope s1 in
+  let s2 := fst (step s1 (AFailAt t0 d0 sh)) in
+  let s := final step s2 mid in
+  wf_run init (pre ++ AFailAt t0 d0 sh :: mid) -> idle s1 t0 = true ->
+  no_explicit_cancel c mid = true -> no_redeadline c s2 mid = true ->
+  forall t fa, idle s t = true ->
+  (s_caught (scopes (fst (step s (AExit t c fa))) c) = true <->
+   s_caught (scopes s c) = true \/
+   ((s_active (scopes (begin_act s t) c) && opt_eqb (s_host (scopes (begin_act s t) c)) t &&
+     opt_eqb (k_cur (tasks (begin_act s t) t)) c) = true /\
+    s_bydeadline (scopes s c) = true /\ parent_visible s c = false /\
+    (((exists e, k_held (tasks s t) = Some e /\ is_anyio_cancel e = true) \/
+      (exists l m, k_held (tasks s t) = Some (EGroup l) /\ split_exn (EGroup l) = (Some m, None))) \/
+     exists r l m, k_held (tasks s t) = Some (EGroup l) /\ split_exn (EGroup l) = (Some m, Some r)))).
+Proof. exact move_on_caught_iff. Qed.
+Print Assumptions C06_move_on_caught_iff.
+
+(* under the provisos: cancel_called <-> cancelled by the own deadline, and then the deadline has passed *)
+Theorem C06_own_deadline_facts : forall (pre : list op) (t0 : tid) (d0 : option Z) (sh : bool) (mid : list op),
+  let s1 := final step init pre in
+  let c := nscope s1 in
+  let s2 := fst (step s1 (AFailAt t0 d0 sh)) in
+  let s := final step s2 mid in
+  wf_run init (pre ++ AFailAt t0 d0 sh :: mid) -> idle s1 t0 = true ->
+  no_explicit_cancel c mid = true -> no_redeadline c s2 mid = true ->
+  (s_cancelled (scopes s c) = true <-> s_bydeadline (scopes s c) = true) /\
+  (s_bydeadline (scopes s c) = true -> exists d, s_deadline (scopes s c) = Some d /\ (d <= now s)%Z).
+Proof. exact own_deadline_facts. Qed.
+Print Assumptions C06_own_deadline_facts.
+
+(* audit T1: own deadline fired and interrupted the block, all provisos hold, but the enclosing scope 1 is cancelled
+   before the block is left: no TimeoutError, cancelled_caught of the fail_at scope stays false, the OUTER scope
+   absorbs the cancellation carrying the inner scope's tag *)
+Theorem C06_t1_enclosing_cancellation_hides_timeout :
+  let pre := [ANewRoot; ANewScope 1 None false; AEnter 1 1] in
+  let mid := [ASleep 1 None; ATick 5; ARun (HTimeout 2 1); AExtCancel 1] in
+  let s := final step init (pre ++ AFailAt 1 (Some 5%Z) false :: mid) in
+  let c := nscope (final step init pre) in
+  let f := match k_waiter (tasks s 1) with Some f => f | None => 0 end in
+  let sa := fst (step s (ARun (HWake 1 f))) in
+  c = 2 /\ wf_run init (pre ++ AFailAt 1 (Some 5%Z) false :: mid) /\
+  no_explicit_cancel c (mid ++ [ARun (HWake 1 f)]) = true /\
+  no_redeadline c (fst (step (final step init pre) (AFailAt 1 (Some 5%Z) false))) (mid ++ [ARun (HWake 1 f)]) = true /\
+  snd (step s (ARun (HWake 1 f))) = RExc (ECancel 3) /\
+  s_bydeadline (scopes sa 2) = true /\ parent_visible sa 2 = true /\
+  snd (step sa (AExit 1 2 true)) = RRet 0 /\
+  let sb := fst (step sa (AExit 1 2 true)) in
+  s_caught (scopes sb 2) = false /\ k_held (tasks sb 1) = Some (ECancel 3) /\
+  snd (step sb (AExit 1 1 false)) = RRet 1 /\
+  s_caught (scopes (fst (step sb (AExit 1 1 false))) 1) = true.
+Proof. exact t1_enclosing_cancellation_hides_timeout. Qed.
+Print Assumptions C06_t1_enclosing_cancellation_hides_timeout.
+
+(* audit T2: the block ends with a group holding the deadline cancellation and another error: cancelled_caught = True
+   but the remainder is re-raised instead of TimeoutError *)
+Theorem C06_t2_group_remainder_instead_of_timeout :
+  let s := final step init ([ANewRoot] ++ AFailAt 1 (Some 5%Z) false :: [ASleep 1 None; ATick 5; ARun (HTimeout 1 1)]) in
+  let f := match k_waiter (tasks s 1) with Some f => f | None => 0 end in
+  let sa := final step s [ARun (HWake 1 f); AWrap 1 7] in
+  nscope (final step init [ANewRoot]) = 1 /\
+  k_held (tasks sa 1) = Some (EGroup [ECancel 2; EErr 7]) /\ s_bydeadline (scopes sa 1) = true /\
+  parent_visible sa 1 = false /\
+  snd (step sa (AExit 1 1 true)) = RExc (EGroup [EErr 7]) /\
+  s_caught (scopes (fst (step sa (AExit 1 1 true))) 1) = true.
+Proof. exact t2_group_remainder_instead_of_timeout. Qed.
+Print Assumptions C06_t2_group_remainder_instead_of_timeout.
